@@ -411,11 +411,55 @@ def run_two_threads(acc, P, gen, job):
                                            spec.values()]})
 
 
+def run_output_names(acc, P, gen):
+    """The shape of the output path: absolute, relative with a directory
+    part, a bare file name in the working directory, a name in a directory
+    that exists - the same sample lands in each."""
+    defaults = [P.RuleDefault('o:one', 'role:a', description='first'),
+                P.RuleDefault('o:two', 'role:b or role:c')]
+    w = world.FileWorld()
+    cwd = os.getcwd()
+    try:
+        w.mkdir('sub')
+        os.chdir(w.root)
+        with world.entry_points(policies={'ns': defaults}):
+            core.quiet_logging()
+            ref = {}
+            for fmt in ('yaml', 'json'):
+                buf = io.StringIO()
+                with contextlib.redirect_stdout(buf):
+                    gen._generate_sample(['ns'], output_file=None,
+                                         output_format=fmt)
+                ref[fmt] = buf.getvalue()
+                for out in (w.path('abs.' + fmt), 'sub/rel.' + fmt,
+                            'bare.' + fmt, './dot.' + fmt):
+                    acc.case('sections', True)
+                    acc.ev()
+                    try:
+                        gen._generate_sample(['ns'], output_file=out,
+                                             output_format=fmt)
+                        got = open(out).read()
+                    except Exception as e:
+                        got = 'raises %s: %s' % (type(e).__name__, e)
+                    if got != ref[fmt]:
+                        acc.violation(
+                            'output-name|%s' % ('raises' if got.startswith(
+                                'raises') else 'differs'),
+                            '%s sample written to %r: %s' % (
+                                fmt, out, got[:120]),
+                            {'output_file': out, 'format': fmt}, ref[fmt][:60],
+                            got[:60], 'sections')
+    finally:
+        os.chdir(cwd)
+        w.destroy()
+
+
 def run(job, seed):
     from oslo_policy import generator as gen, policy as P
     acc = core.Acc()
     if job['space'] == 'sections':
         run_sections(acc, P, gen)
+        run_output_names(acc, P, gen)
         return acc.result()
     if job['space'] == 'two-threads':
         run_two_threads(acc, P, gen, job)
